@@ -96,6 +96,8 @@ def operand_text(a, shape, A, variant, label=None):
     if k == "Reg":
         return R
     if k == "RegDef":
+        if variant % 7 == 3:
+            return "@%s" % R              # the legacy spelling, accepted with a warning as (rN)
         return "(%s)" % R
     if k == "AutoInc":
         return "(%s)+" % R
